@@ -321,8 +321,15 @@ bool hasComponentImports(const ComponentEntityConstPtr &componentEntity)
     return importsPresent;
 }
 
-bool hasUnitsImports(const UnitsPtr &units)
+bool hasUnitsImports(const UnitsPtr &units, std::vector<UnitsPtr> &visited)
 {
+    // Units that refer back to units we are already looking at (a cyclic
+    // definition) cannot add an import.
+    if (std::find(visited.begin(), visited.end(), units) != visited.end()) {
+        return false;
+    }
+    visited.push_back(units);
+
     bool importPresent = units->isImport();
     auto model = owningModel(units);
     size_t unistCount = units->unitCount();
@@ -330,11 +337,17 @@ bool hasUnitsImports(const UnitsPtr &units)
         std::string reference = units->unitAttributeReference(index);
         if (!reference.empty() && !isStandardUnitName(reference)) {
             if (model->hasUnits(reference)) {
-                importPresent = hasUnitsImports(model->units(reference));
+                importPresent = hasUnitsImports(model->units(reference), visited);
             }
         }
     }
     return importPresent;
+}
+
+bool hasUnitsImports(const UnitsPtr &units)
+{
+    std::vector<UnitsPtr> visited;
+    return hasUnitsImports(units, visited);
 }
 
 bool Model::hasImports() const
